@@ -24,6 +24,10 @@ Definition pyslice {X} (lo hi : option Z) (l : list X) : list X :=
 Fixpoint leading {X} (p : X -> bool) (l : list X) : nat :=
   match l with x :: r => if p x then S (leading p r) else 0 | [] => 0 end.
 
+Definition is_some {X} (x : option X) : bool := match x with Some _ => true | None => false end.
+(* normalize_time: at least one timestamp in the column (otherwise the depth of the result is undefined) *)
+Definition has_time (tss : list (list (option Z))) : bool := existsb (existsb is_some) tss.
+
 Section Structural.
   Variable V : Type.
   Definition sample := option V.
@@ -178,3 +182,15 @@ Definition nanvar (r : qrow) : option Q :=
   end.
 Definition z_row (sd : Q) (r : qrow) : qrow :=
   map (fun x => lift2 (fun a m => (a - m) / sd) x (nanmean r)) r.
+(* sd is the (non-zero) standard deviation of the valid samples of r *)
+Definition is_std (sd : Q) (r : qrow) : bool :=
+  match nanvar r with
+  | Some v => Qeq_bool (sd * sd) v && Qle_bool 0 sd && negb (Qeq_bool sd 0)
+  | None => false
+  end.
+
+(* equality of observations up to equality of rationals (1/2 == 2/4) *)
+Definition sample_equiv (a b : option Q) : Prop :=
+  match a, b with Some x, Some y => x == y | None, None => True | _, _ => False end.
+Definition row_equiv (a b : qrow) : Prop := Forall2 sample_equiv a b.
+Definition rows_equiv (a b : list qrow) : Prop := Forall2 row_equiv a b.
